@@ -1,5 +1,6 @@
 """C04 — copy-on-write arrays behave as independent values (mptcore/array/*.c)."""
 import os
+import struct
 import vcheck
 from vcheck import DiffProperty, ASAN_ENV
 
@@ -8,10 +9,32 @@ ARITY = {"app": 2, "appz": 2, "ins": 3, "set": 4, "setz": 4, "slc": 3, "slw": 3,
          "red": 1, "bins": 3, "bcut": 3, "bset": 4, "bsetz": 4, "prt": 2, "str": 1, "new": 3, "flg": 2,
          "mks": 4, "wr": 4, "wrz": 3,
          "xcp": 2, "xclr": 1, "xapp": 2, "xins": 3, "xset": 2, "xsetz": 2, "xsets": 2, "xasl": 2, "xmks": 2,
-         "xshf": 2, "xtrm": 2}
+         "xshf": 2, "xtrm": 2,
+         "tcp": 2, "tcc": 2, "tclr": 1, "tnew": 2, "tins": 3, "tset": 3, "trsv": 2, "trsz": 2, "tdet": 1, "tget": 2,
+         "toff": 2, "tcmp": 1, "tswp": 3, "tunu": 1, "mset": 3, "mapp": 3, "mget": 2, "mval": 2, "mall": 1}
 HEXARG = {"app": 1, "ins": 2, "set": 3, "slw": 2, "bins": 2, "bset": 3, "prt": 1, "wr": 3,
           "xapp": 1, "xins": 2, "xset": 1, "xsets": 1}   # index of the hex argument
 CXX_OPS = ("xcp", "xclr", "xapp", "xins", "xset", "xsetz", "xsets", "xasl", "xmks", "xshf", "xtrm")
+# class templates of mptcore/array.h (harness/c04_tpl.cpp): family token -> element size
+FAMS = {"Td": 8, "Tu": 4, "Tk": 12, "Tq": 8, "Tr": 12, "Tp": 8, "Tm": 8}
+UNIQ = ("Tq", "Tr")
+TPL_MUT = ("tins", "tset", "trsv", "trsz", "tdet", "tcmp", "tswp", "mset", "mapp")
+# One switch per proposed patch of docs/C04_<topic>.diff (mptcore/array.h).  The model is the code AS PATCHED; while a
+# patch is not in the tree under test, the cases that need it are not generated.  Set to True once the patch is committed.
+PATCHED_RESERVE_NEG = True       # C04_reserve_negative.diff: unique_array::reserve(len < 0) reads length() of the detached reference
+#                                   (on shared / immutable data the negative cases need RESERVE_KEEP, too)
+PATCHED_RESERVE_KEEP = True      # C04_reserve_keep.diff: reserve/resize below the length on shared data cuts the private copy
+PATCHED_RESERVE_FAIL = True      # C04_reserve_fail.diff: reserve reports success when detach failed (shared NoCopy data written in place)
+PATCHED_MAP_GET = True           # C04_map_get.diff: map::get returns the value behind the end iterator
+PATCHED_MAP_SET = True           # C04_map_set_shared.diff: map::set writes an existing key into shared data (needs MAP_GET, too)
+PATCHED_SWAP_BOUNDS = True       # C04_swap_bounds.diff: swap(span, p1, p2) accepts p == length and negative positions
+PATCHED_PTR_SWAP_SHARED = True   # C04_ptr_swap_shared.diff: pointer_array::swap exchanges elements of shared data in place
+_SWITCHES = ("RESERVE_NEG", "RESERVE_KEEP", "RESERVE_FAIL", "MAP_GET", "MAP_SET", "SWAP_BOUNDS", "PTR_SWAP_SHARED")
+# testing aid (scratch trees): VERIF_C04_PATCHED="MAP_GET MAP_SET" or "ALL" turns switches on without editing this file
+for _n in os.environ.get("VERIF_C04_PATCHED", "").replace(",", " ").split():
+    for _m in (_SWITCHES if _n == "ALL" else (_n,)):
+        if _m in _SWITCHES:
+            globals()["PATCHED_" + _m] = True
 MUTATORS = ("app", "appz", "ins", "set", "setz", "slc", "slw", "rsv", "red", "prt", "str", "wr", "wrz",
             "xapp", "xins", "xset", "xsetz", "xsets", "xasl", "xshf", "xtrm")
 
@@ -67,41 +90,84 @@ class C04(DiffProperty):
             "0,1,3,63,64,65,200} x {raw, char} x {flags} x {private, shared with an array, shared with a slice} x every operation "
             "with offsets and lengths at 0, 1, used-1, used, used+1, size-used, size-used+1, size-1, size, size+1 and the 64-byte "
             "printf steps, then 3000 (C) + 1500 (C++) random histories with arguments drawn around used, size, the free space and "
-            "the 128-byte allocation granule. After EACH operation all six handles are read back (element type, bytes, length), "
+            "the 128-byte allocation granule. Class template cases (harness/c04_tpl.cpp; first token = family of the four "
+            "handles: typed_array<double>, typed_array<uint32_t>, typed_array<Counted> (12-byte element whose constructors / "
+            "destructor count live instances), unique_array<double>, unique_array<Counted>, pointer_array<Obj>, "
+            "map<uint32_t,uint32_t>): copy assignment, copy construction, clear, construction with a length, insert, set, "
+            "reserve, resize, detach, get, offset, pointer_array::compact / swap / unused, map::set / append / get / values, "
+            "header flags; positions and lengths are C longs (negative = from the end). quick: a directed sweep per family "
+            "{0,1,2,3 elements and the element counts that fill the first (64-byte) and second (192-byte) allocation step "
+            "exactly, one less, one more} x {private, shared by assignment (operation through the original / through the "
+            "copy), shared by copy construction, immutable, shared+immutable, shared+NoCopy} x every operation with "
+            "positions 0, 1, len/2, len-2, len-1, len, len+1, len+3, -1, -2, -len, -len-1, -len-2 and lengths 0, 1, len-1, "
+            "len, len+1, the block capacities +0/+1, -1, -len, -len-1; maps with 0..24 keys (existing first / middle / last "
+            "key, new key, duplicate keys), then 1500 random histories of 2-40 operations whose positions are aimed by a "
+            "value-level picture of the handles. While a patch of docs/C04_<topic>.diff is not in the tree its PATCHED_<TOPIC> "
+            "switch keeps the cases that need it out (negative reserve/resize, reserve/resize below the length on shared "
+            "data, copies of unique arrays and NoCopy flags, map::get / map::set of an existing key, swap outside the "
+            "elements, swap on shared data). After EACH operation all six handles are read back (element type, bytes, length), "
             "with the sharing partition, _used, _size, reference count and flags of every buffer. A case is non-trivial when some "
-            "handle holds data when a mutating operation runs; distinct = distinct case text")
+            "handle holds data when a mutating operation runs; distinct = distinct case text. Template handles are read "
+            "back twice: from the header and the bytes behind it, and through the template API (length, get with positive "
+            "and negative positions, begin/end, elements(), map iteration) - a difference is reported in the token; the "
+            "Counted families add the number of live objects, which must equal the elements of all live blocks")
     modelled = ("mptcore/array/{buffer_alloc,array_append,array_insert,array_set,array_slice,array_reserve,array_clone,"
                 "array_reduce,buffer_insert,buffer_cut,buffer_set,slice_write,printf,array_string}.c and the C++ entry points of "
                 "mpt++/array.cpp + mptcore/array.h (reference assignment, array::append/set/operator=(slice), slice ctor/shift/trim; "
                 "array::insert and array::set(value) as they are AFTER docs/C04_cxx_patches.diff) transcribed in "
                 "coq/C04/ArrayModel.v for raw buffers and POD element types (no init/fini callbacks; those are C05); "
-                "malloc failure, SIZE_MAX overflow guards, errno kinds and vsnprintf formats other than \"%s\" are not modelled; "
-                "typed_array / unique_array / pointer_array / map templates are not modelled")
+                "malloc failure, SIZE_MAX overflow guards, errno kinds and vsnprintf formats other than \"%s\" are not modelled. "
+                "The class templates of mptcore/array.h (content<T>, unique_array<T>, typed_array<T>, pointer_array<T>, "
+                "map<K,V>: constructors, copy / assignment, insert, set, get, reserve, resize, detach, offset, elements, "
+                "compact, swap, unused, map::set / append / get / values) are transcribed as compositions of the modelled "
+                "detach / mpt_buffer_insert / buffer::trim / element stores plus the index arithmetic on C long positions, "
+                "AS THEY ARE AFTER docs/C04_{reserve_negative,reserve_keep,reserve_fail,map_get,map_set_shared,swap_bounds,"
+                "ptr_swap_shared}.diff; element types are identified by their size (traits with init/fini that copy bitwise and "
+                "zero-initialise behave as POD: the instance count of such a type is checked against the model heap); the static "
+                "default_data object is the handle without buffer; mpt_array_compact's in-place loop is modelled by its result "
+                "(used pointers in order at the front; the bytes behind the new length are not content and not compared); "
+                "item_array / reference_array (element types with identifier / reference members) are not modelled")
     trusted = ["harness/c04_array.c and harness/c04_cxx.cpp read every handle back from the header fields and the bytes behind "
                "the header, not through the library (the C harness includes buffer_alloc.c, the C++ harness mirrors the layouts "
                "and checks their sizes)",
                "the C++ harness compiles mpt++/array.cpp into its own translation unit without UBSan's vptr check (C-made "
                "buffers carry a C function table, not a C++ vtable); all other sanitizer checks stay on",
+               "harness/c04_tpl.cpp (class templates) finds the block of a handle from the address of its first element "
+               "(begin() is right behind the header) and reads it as the other harnesses do; it is built like c04_cxx.cpp",
                "vsnprintf(\"%s\") is modelled as bounded copy + NUL; malloc succeeds; fresh heap memory reads as the ASan fill byte 0xbe"]
     level_text = ("proof: Coq theorems C04_cow_step / C04_others_unchanged / C04_cow_histories / C04_refused_unchanged / "
-                  "C04_model_no_fault / C04_ref_inv over the transcribed mechanism (heap of reference-counted buffers + array and "
-                  "slice handles): for EVERY state satisfying the heap invariant and every one of the 24 modelled operations (C API: "
+                  "C04_model_no_fault / C04_ref_inv (+ C04_template_insert_value / C04_template_read_only / C04_view_is_value) "
+                  "over the transcribed mechanism (heap of reference-counted buffers + array and "
+                  "slice handles): for EVERY state satisfying the heap invariant and every one of the 34 modelled operations (C API: "
                   "append, insert, typed set, slice, reserve, clone/clear, reduce, in-place buffer insert/cut/set, printf, string, new "
                   "buffer, flags, slice creation, slice write; C++ API: array copy/assignment, append, set, set(string value), "
-                  "array = slice, slice(array), slice::shift/trim), the value read through the target handle is exactly the plain "
+                  "array = slice, slice(array), slice::shift/trim; class templates typed_array / unique_array / pointer_array / map: "
+                  "construction with a length, insert, set, reserve, resize, detach, read-only methods, compact, swap, map::set), "
+                  "the value read through the target handle is exactly the plain "
                   "vector operation of coq/C04/ArraySpec.v (gaps zero, lengths exact), every other handle reads what it read before, "
                   "the reference count of every buffer equals the number of handles on it, no model access leaves the block, refused "
                   "operations change no value; lifted to all mixed C/C++ histories by induction (no bound on handles, lengths, "
                   "history length). The model is tied to the code on every run by differential execution of two harness binaries "
-                  "(C and C++) under ASan/UBSan")
+                  "(C, C++ array/slice, C++ class templates) under ASan/UBSan")
     level_note = ("full strength for the modelled C and C++ entry points on raw and POD-typed buffers; all theorems closed under the "
                   "global context. Trusted: Coq kernel; hand transcription (validated by the correspondence run, not verified); "
                   "extraction + OCaml driver; harnesses. The specification is told (hint_of) the NoCopy/shared/immutable flags and "
                   "capacity of the target's buffer where the interface leaves the verdict to them (NoCopy refusal, capacity "
                   "precondition of the in-place mpt_buffer_* functions, partial slice writes) and whether a slice window lies inside "
                   "the data (harness guard of slice::shift/trim and array = slice). mpt++ array::insert (double offset, new buffer never installed, heap overflow) and array::set(const value&) "
-                  "(always failed) were found defective and repaired in /repo (74201ae, aa1131c). Not covered: typed_array / unique_array / pointer_array / map templates (negative "
-                  "slice::shift/trim, too), buffers with init/fini callbacks (C05), malloc failure paths. See docs/notes_C04.md.")
+                  "(always failed) were found defective and repaired in /repo (74201ae, aa1131c). Class templates: template operations are "
+                  "applied to handles of their own element type only (static typing: guard t_ok), pointer_array::swap only to a "
+                  "handle that owns a block; seven defects of the unmodified templates were found by driving them (replays "
+                  "docs/C04_replay_*.json, one patch each under docs/C04_<topic>.diff, verified on a scratch tree with ctest 29/29): "
+                  "unique_array::reserve with a negative length always refused; reserve/resize below the length cuts the private "
+                  "copy of shared data; reserve reports success after a failed detach (shared NoCopy data then written in place); "
+                  "map::get returns the value behind the end iterator (heap overflow through map::set on a full block); map::set "
+                  "writes an existing key into shared data; swap(span) accepts p == length and negative positions (heap overflow "
+                  "on a full block); pointer_array::swap exchanges elements of shared data in place. The model is the code as "
+                  "patched; until a patch is committed its PATCHED_<TOPIC> switch in props/c04.py keeps the cases that need it out, "
+                  "so those behaviours are NOT exercised on the unpatched tree. Not covered: item_array / reference_array, "
+                  "negative slice::shift/trim, buffers with init/fini callbacks that do not copy bitwise (C05), malloc failure "
+                  "paths. See docs/notes_C04.md.")
     technique = "Coq refinement proof (refcounted buffer heap -> value vectors) + differential correspondence check"
     assumptions = ["malloc succeeds", "buffers carry no init/fini callbacks (raw or POD element types)",
                    "vsnprintf(\"%s\") copies at most cap-1 bytes, stores a NUL and returns the text length"]
@@ -114,26 +180,29 @@ class C04(DiffProperty):
 
     def split(self, case):
         t = case.split()
+        hdr = []
+        if t and t[0] in FAMS:            # class template cases start with the family of the four handles
+            hdr, t = t[:1], t[1:]
         ops, i = [], 0
         while i < len(t):
             n = ARITY.get(t[i], 1)
             ops.append(t[i:i + n + 1])
             i += n + 1
-        return [], ops
+        return hdr, ops
 
     def shrink_candidates(self, case):
-        _, ops = self.split(case)
+        hdr, ops = self.split(case)
         n = len(ops)
         for k in range(1, n):
-            yield self.join([], ops[:k])
+            yield self.join(hdr, ops[:k])
         for k in range(n):
-            yield self.join([], ops[:k] + ops[k + 1:])
+            yield self.join(hdr, ops[:k] + ops[k + 1:])
         for k, o in enumerate(ops):
             hi = HEXARG.get(o[0])
             if hi is not None and o[hi + 1] != "-" and len(o[hi + 1]) > 2 and o[0] != "wr":
                 h = o[hi + 1]
                 for nh in (h[:len(h) // 4 * 2] or "-", h[:-2]):
-                    yield self.join([], ops[:k] + [o[:hi + 1] + [nh] + o[hi + 2:]] + ops[k + 1:])
+                    yield self.join(hdr, ops[:k] + [o[:hi + 1] + [nh] + o[hi + 2:]] + ops[k + 1:])
             for ai in range(2, len(o)):
                 if ai - 1 == hi:
                     continue
@@ -141,14 +210,29 @@ class C04(DiffProperty):
                     v = int(o[ai])
                 except ValueError:
                     continue
-                for nv in (0, v // 2, v - 1):
-                    if 0 <= nv < v:
-                        yield self.join([], ops[:k] + [o[:ai] + [str(nv)] + o[ai + 1:]] + ops[k + 1:])
+                for nv in (0, v // 2, v - 1) if v >= 0 else (-1, v // 2, v + 1):
+                    if 0 <= nv < v or v < nv < 0:
+                        yield self.join(hdr, ops[:k] + [o[:ai] + [str(nv)] + o[ai + 1:]] + ops[k + 1:])
 
     def classify(self, case):
-        _, ops = self.split(case)
+        hdr, ops = self.split(case)
         cl = set()
         have = False
+        if hdr:
+            cl.add("family:" + hdr[0])
+            for o in ops:
+                cl.add("op:" + o[0])
+                if o[0] in TPL_MUT and have:
+                    cl.add("mutate-nonempty")
+                if o[0] in ("tins", "trsz", "mset", "mapp"):
+                    have = True
+                if o[0] in ("tcp", "tcc"):
+                    cl.add("shared")
+                if o[0] == "flg" and o[-1] != "0":
+                    cl.add("flags:" + o[-1])
+            if len(ops) > 1:
+                cl.add("history")
+            return cl if ("mutate-nonempty" in cl or len(ops) >= 2) else set()
         for o in ops:
             cl.add("op:" + o[0])
             if o[0] in MUTATORS and have:
@@ -177,12 +261,14 @@ class C04(DiffProperty):
         return any(t in CXX_OPS for t in case.split())
 
     def evaluate(self, cases, workdir, tagsuffix=""):
-        """cases that use the C++ API go to harness/c04_cxx.cpp, the others to harness/c04_array.c; one model run"""
+        """cases of the class templates (family token first) go to harness/c04_tpl.cpp, cases that use the C++ array /
+        slice API to harness/c04_cxx.cpp, the others to harness/c04_array.c; one model run"""
         hx = vcheck.build_harness(self.harness_src, self.libs, extra=self.extra_harness_flags)
         mx = vcheck.build_model(self.mlname, self.driver, self.extract_vo)
         ided = ["c%d %s" % (i, c) for i, c in enumerate(cases)]
-        c_cases = [l for l, c in zip(ided, cases) if not self.is_cxx(c)]
-        x_cases = [l for l, c in zip(ided, cases) if self.is_cxx(c)]
+        t_cases = [l for l, c in zip(ided, cases) if self.is_tpl(c)]
+        c_cases = [l for l, c in zip(ided, cases) if not self.is_tpl(c) and not self.is_cxx(c)]
+        x_cases = [l for l, c in zip(ided, cases) if not self.is_tpl(c) and self.is_cxx(c)]
         I, errs = {"I": {}}, []
         if c_cases:
             r, e = vcheck.run_cases(hx, c_cases, workdir, "impl" + tagsuffix, env=self.harness_env, args=self.harness_args)
@@ -190,6 +276,10 @@ class C04(DiffProperty):
         if x_cases:
             cx = vcheck.build_harness(self.cxx_harness_src, self.cxx_libs, extra=self.cxx_flags)
             r, e = vcheck.run_cases(cx, x_cases, workdir, "implcxx" + tagsuffix, env=self.harness_env, args=self.harness_args)
+            I["I"].update(r.get("I", {})); errs += e
+        if t_cases:
+            tx = vcheck.build_harness(self.tpl_harness_src, self.cxx_libs, extra=self.cxx_flags)
+            r, e = vcheck.run_cases(tx, t_cases, workdir, "impltpl" + tagsuffix, env=self.harness_env, args=self.harness_args)
             I["I"].update(r.get("I", {})); errs += e
         M, e2 = vcheck.run_cases(mx, ided, workdir, "model" + tagsuffix)
         res = []
@@ -317,6 +407,257 @@ class C04(DiffProperty):
                     ops.append(["wrz", str(sidx), str(nb), str(es)])
                 if sidx in (4, 5) and es: u[sidx] = us + nb * es
         return " ".join(t for o in ops for t in o)
+
+    # ------------------------------------------------------------ class templates of mptcore/array.h
+    tpl_harness_src = "c04_tpl.cpp"
+
+    def corpus(self):
+        """a corpus line `@RESERVE_NEG,MAP_GET <case>` is used only when all the named PATCHED_ switches are on"""
+        out = []
+        for line in DiffProperty.corpus(self):
+            if line.startswith("@"):
+                need, line = line[1:].split(None, 1)
+                if not all(globals().get("PATCHED_" + n, False) for n in need.split(",")):
+                    continue
+            out.append(line)
+        return out
+
+    @staticmethod
+    def is_tpl(case):
+        return case[:2] in FAMS and case[2:3] in (" ", "")
+
+    @staticmethod
+    def tpl_elem(fam, rng):
+        """one element as hex: doubles with integer values (bit equality = value equality), pointers 0x1000*k or null"""
+        if fam in ("Td", "Tq"):
+            return struct.pack("<d", float(rng.randrange(1, 250))).hex()
+        if fam == "Tu":
+            return struct.pack("<I", rng.randrange(1, 1 << 32)).hex()
+        if fam in ("Tk", "Tr"):
+            return struct.pack("<III", rng.randrange(1, 1000), rng.randrange(0, 1 << 32), rng.randrange(0, 5)).hex()
+        if fam == "Tp":
+            return "00" * 8 if rng.random() < 0.35 else struct.pack("<Q", 0x1000 * rng.randrange(1, 4000)).hex()
+        raise ValueError(fam)
+
+    def tpl_fill(self, fam, rng, L, x="0"):
+        """operations that give handle x exactly L elements with recognisable content"""
+        if L <= 4:
+            return [t for i in range(L) for t in ("tins", x, str(i), self.tpl_elem(fam, rng))]
+        ops = ["trsz", x, str(L)]
+        for i in sorted(set([0, 1, L // 2, L - 2, L - 1])):
+            ops += ["tset", x, str(i), self.tpl_elem(fam, rng)]
+        return ops
+
+    def tpl_sweep(self, rng):
+        cases = []
+        for fam in ("Td", "Tu", "Tk", "Tq", "Tr", "Tp"):
+            e = FAMS[fam]
+            c1, c2 = 64 // e, 192 // e            # elements in the first / second allocation step
+            uq = fam in UNIQ
+            modes = [("priv", [], "0"), ("cp", ["tcp", "1", "0"], "0")]
+            rest = [("cp1", ["tcp", "1", "0"], "1"), ("cc", ["tcc", "1", "0"], "1"), ("imm", ["flg", "0", "1"], "0"),
+                    ("cpimm", ["tcp", "1", "0", "flg", "0", "1"], "0"), ("nc", ["flg", "0", "2", "tcp", "1", "0"], "0")]
+            for L in sorted(set([0, 1, 2, 3, c1 - 1, c1, c1 + 1, c2, c2 + 1])):
+                for (mode, mk, x) in modes + (rest if L in (1, c1, c1 + 1) else []):
+                    shared = mode in ("cp", "cp1", "cc", "cpimm", "nc")
+                    if (uq and shared) or mode == "nc":
+                        if not PATCHED_RESERVE_FAIL:
+                            continue
+                    clean = mode == "priv"
+                    pre = [fam] + self.tpl_fill(fam, rng, L) + mk
+                    ops = []
+                    for pos in sorted(set([0, 1, L // 2, L - 2, L - 1, L, L + 1, L + 3, -1, -2, -L, -L - 1, -L - 2])):
+                        ops.append(["tins", x, str(pos), self.tpl_elem(fam, rng)])
+                        ops.append(["tset", x, str(pos), self.tpl_elem(fam, rng)])
+                    for n in sorted(set([0, 1, L - 1, L, L + 1, c1, c1 + 1, c2 + 1, -1, -L, -L - 1])):
+                        if n < 0 and not PATCHED_RESERVE_NEG:
+                            continue
+                        if n < L and not (PATCHED_RESERVE_KEEP or clean):     # (a negative length is below the length, too)
+                            continue
+                        ops.append(["trsv", x, str(n)])
+                        ops.append(["trsz", x, str(n)])
+                    ops += [["tdet", x], ["tclr", x], ["tnew", x, "-1"], ["tnew", x, "0"], ["tnew", x, str(c1 + 1)],
+                            ["tcp", "2", x], ["tcp", x, "2"], ["tcc", "2", x], ["tcp", x, x]]
+                    reads = []
+                    for pos in sorted(set([0, 1, L - 1, L, -1, -L, -L - 1])):
+                        reads += ["tget", x, str(pos)]
+                    reads += ["toff", x, self.tpl_elem(fam, rng), "toff", x, "00" * e]
+                    ops.append(reads)
+                    if fam == "Tp":
+                        ops.append(["tunu", x, "tcmp", x, "tunu", x])
+                        for p1 in sorted(set([0, 1, L - 1, L, L + 1, -1])):
+                            for p2 in sorted(set([0, L - 1, L, -1])):
+                                inr = 0 <= p1 < L and 0 <= p2 < L
+                                if not inr and not PATCHED_SWAP_BOUNDS:
+                                    continue
+                                if not clean and not PATCHED_PTR_SWAP_SHARED:
+                                    continue
+                                ops.append(["tswp", x, str(p1), str(p2)])
+                    for o in ops:
+                        cases.append(" ".join(pre + o))
+        # map<uint32_t, uint32_t>
+        by = 1
+        for n in (0, 1, 2, 7, 8, 9, 24):
+            for (mode, mk, x) in (("priv", [], "0"), ("cp", ["tcp", "1", "0"], "0"), ("cp1", ["tcp", "1", "0"], "1"),
+                                  ("cc", ["tcc", "1", "0"], "1")):
+                pre = ["Tm"]
+                for k in range(n):
+                    pre += ["mset", "0", str(k + 1), str(100 + k)]
+                pre += mk
+                keys = sorted(set([1, max(1, n // 2), max(1, n)])) if n else []
+                ops = []
+                for k in keys:
+                    if PATCHED_MAP_GET and PATCHED_MAP_SET:
+                        ops.append(["mset", x, str(k), str(7000 + k)])
+                    ops.append(["mapp", x, str(k), str(8000 + k), "mval", x, str(k), "mall", x]
+                               + (["mget", x, str(k)] if PATCHED_MAP_GET else []))
+                    if PATCHED_MAP_GET:
+                        ops.append(["mget", x, str(k)])
+                    ops.append(["mval", x, str(k)])
+                ops += [["mset", x, str(n + 5), "9"], ["mapp", x, str(n + 5), "9"], ["mget", x, str(n + 5)],
+                        ["mval", x, str(n + 5)], ["mall", x], ["tclr", x], ["tcp", "2", x]]
+                for o in ops:
+                    cases.append(" ".join(pre + o))
+        return cases
+
+    def gen_tpl_history(self, rng, nops):
+        fam = rng.choice(["Td", "Td", "Tu", "Tk", "Tk", "Tq", "Tr", "Tp", "Tp", "Tm", "Tm"])
+        if fam == "Tm":
+            return self.gen_map_history(rng, nops)
+        e = FAMS[fam]
+        c1, c2 = 64 // e, 192 // e
+        uq = fam in UNIQ
+        zero = "00" * e
+        v = [[] for _ in range(4)]        # value-level picture of the handles (aims positions, keeps unpatched cases out)
+        clean = [True] * 4                # the handle holds private, unflagged data for sure
+        fuzzy = [False] * 4               # the picture may be wrong (refusals of NoCopy data, immutable compact)
+        flagged = False
+        names = (["tins"] * 16 + ["tset"] * 6 + ["trsv"] * 5 + ["trsz"] * 6 + ["tdet"] * 2 + ["tcp"] * 10 + ["tcc"] * 3
+                 + ["tclr"] * 2 + ["tnew"] * 2 + ["tget"] * 3 + ["toff"] * 1 + ["flg"] * 2
+                 + (["tcmp"] * 5 + ["tswp"] * 6 + ["tunu"] * 2 if fam == "Tp" else []))
+        ops = []
+        for _ in range(nops):
+            op = rng.choice(names)
+            x = rng.choice([0, 1, 0, 1, 2, 3]) if rng.random() < 0.97 else rng.randrange(0, 7)
+            ok = 0 <= x < 4
+            L = len(v[x]) if ok else 0
+            sure = ok and clean[x] and not fuzzy[x]
+            may_block = flagged or uq         # a mutation through a handle that is not clean may be refused
+            pos = lambda: rng.choice([0, 1, L // 2, L - 2, L - 1, L, L, L + 1, L + 3, -1, -2, -L, -L - 1,
+                                      c1 - 1, c1, c2, rng.randrange(-3, L + 4)])
+            if op == "tins":
+                p = pos(); el = self.tpl_elem(fam, rng)
+                ops.append([op, str(x), str(p), el])
+                if ok:
+                    if not clean[x] and may_block: fuzzy[x] = True
+                    q = p + L if p < 0 else p
+                    if q >= 0:
+                        v[x] = v[x] + [zero] * (q - L); v[x].insert(q, el)
+            elif op == "tset":
+                p = pos(); el = self.tpl_elem(fam, rng)
+                ops.append([op, str(x), str(p), el])
+                if ok:
+                    if not clean[x] and may_block: fuzzy[x] = True
+                    q = p + L if p < 0 else p
+                    if 0 <= q < L: v[x][q] = el
+            elif op in ("trsv", "trsz"):
+                n = rng.choice([0, 1, L - 1, L, L + 1, c1, c1 + 1, c2, c2 + 1, -1, -L, -L - 1, rng.randrange(0, L + 9)])
+                if n < 0 and not PATCHED_RESERVE_NEG:
+                    n = L + 1
+                if ok and fuzzy[x] and not PATCHED_RESERVE_KEEP:
+                    continue                                              # the real length is not known for sure
+                if n < L and not (PATCHED_RESERVE_KEEP or sure):          # (a negative length is below the length, too)
+                    n = L + rng.choice([0, 1, c1])
+                ops.append([op, str(x), str(n)])
+                if ok:
+                    if not clean[x] and may_block: fuzzy[x] = True
+                    if op == "trsz" and n >= 0:
+                        v[x] = v[x][:n] + [zero] * (n - L)
+            elif op == "tdet":
+                ops.append([op, str(x)])
+            elif op in ("tcp", "tcc"):
+                y = rng.randrange(0, 4) if rng.random() < 0.97 else rng.randrange(0, 7)
+                if uq and not PATCHED_RESERVE_FAIL:
+                    continue
+                if op == "tcc" and x == y:
+                    op = "tcp"
+                ops.append([op, str(x), str(y)])
+                if ok and 0 <= y < 4 and x != y:
+                    v[x] = list(v[y]); clean[x] = clean[y] = False; fuzzy[x] = fuzzy[y]
+            elif op == "tclr":
+                ops.append([op, str(x)])
+                if ok: v[x] = []; clean[x] = True; fuzzy[x] = False
+            elif op == "tnew":
+                ops.append([op, str(x), str(rng.choice([-1, 0, 1, c1, c1 + 1, c2 + 1]))])
+                if ok: v[x] = []; clean[x] = True; fuzzy[x] = False
+            elif op == "tget":
+                ops.append([op, str(x), str(pos())])
+            elif op == "toff":
+                ops.append([op, str(x), rng.choice(v[x]) if ok and v[x] and rng.random() < 0.7 else self.tpl_elem(fam, rng)])
+            elif op == "flg":
+                f = rng.choice([0, 1, 1, 2, 3]) if PATCHED_RESERVE_FAIL else rng.choice([0, 1])
+                ops.append([op, str(x), str(f)])
+                if ok:
+                    clean[x] = False
+                    if f & 2: flagged = True
+                    if fam == "Tp" and f & 1:
+                        fuzzy = [fz or not cl for fz, cl in zip(fuzzy, clean)]
+            elif op == "tcmp":
+                ops.append([op, str(x)])
+                if ok: v[x] = [el for el in v[x] if el != zero]
+            elif op == "tunu":
+                ops.append([op, str(x)])
+            elif op == "tswp":
+                p1, p2 = (rng.choice([0, 1, L // 2, L - 1, L, L + 1, -1, rng.randrange(0, L + 2)]) for _ in range(2))
+                if ok:
+                    if not clean[x] and not PATCHED_PTR_SWAP_SHARED:
+                        continue
+                    if not PATCHED_SWAP_BOUNDS:
+                        if fuzzy[x] or L == 0:
+                            continue
+                        p1, p2 = rng.randrange(0, L), rng.randrange(0, L)
+                    if not clean[x] and may_block: fuzzy[x] = True
+                ops.append([op, str(x), str(p1), str(p2)])
+                if ok and 0 <= p1 < L and 0 <= p2 < L:
+                    v[x][p1], v[x][p2] = v[x][p2], v[x][p1]
+        return " ".join([fam] + [t for o in ops for t in o])
+
+    def gen_map_history(self, rng, nops):
+        keys = [set() for _ in range(4)]
+        ops = []
+        for _ in range(nops):
+            op = rng.choice(["mset"] * 10 + ["mapp"] * 4 + ["mget"] * 4 + ["mval"] * 3 + ["mall"] * 2 + ["tcp"] * 6
+                            + ["tcc"] * 2 + ["tclr"] + ["flg"])
+            x = rng.choice([0, 1, 0, 1, 2, 3]) if rng.random() < 0.97 else rng.randrange(0, 7)
+            ok = 0 <= x < 4
+            have = keys[x] if ok else set()
+            k = rng.choice([1, 2, 3, 4, 5, 6, 7, 8, 9, 10, rng.randrange(0, 1 << 32)])
+            if op == "mset":
+                if k in have and not (PATCHED_MAP_GET and PATCHED_MAP_SET):
+                    k = max(have | {10}) + 1
+                ops.append([op, str(x), str(k), str(rng.randrange(0, 1 << 32))])
+                if ok: keys[x].add(k)
+            elif op == "mapp":
+                ops.append([op, str(x), str(k), str(rng.randrange(0, 1 << 32))])
+                if ok: keys[x].add(k)
+            elif op == "mget":
+                if k in have and not PATCHED_MAP_GET:
+                    k = max(have | {10}) + 1
+                ops.append([op, str(x), str(k)])
+            elif op == "mval":
+                ops.append([op, str(x), str(k)])
+            elif op in ("mall", "tclr"):
+                ops.append([op, str(x)])
+                if ok and op == "tclr": keys[x] = set()
+            elif op in ("tcp", "tcc"):
+                y = rng.randrange(0, 4) if rng.random() < 0.97 else rng.randrange(0, 7)
+                if op == "tcc" and x == y:
+                    op = "tcp"
+                ops.append([op, str(x), str(y)])
+                if ok and 0 <= y < 4: keys[x] = set(keys[y])
+            elif op == "flg":
+                ops.append([op, str(x), str(rng.choice([0, 1]))])
+        return " ".join(["Tm"] + [t for o in ops for t in o])
 
     # ------------------------------------------------------------ generators
     def sweep(self, rng):
@@ -516,6 +857,9 @@ class C04(DiffProperty):
         cases += self.cxx_sweep(rng)
         for i in range(n // 2):
             cases.append(self.gen_cxx_history(rng, rng.choice([1, 2, 3, 4, 6, 8, 10, 12, 16, 20, 25])))
+        cases += self.tpl_sweep(rng)
+        for i in range(n // 2):
+            cases.append(self.gen_tpl_history(rng, rng.choice([2, 3, 4, 6, 8, 10, 12, 16, 20, 25, 32, 40])))
         return cases
 
 
